@@ -148,8 +148,11 @@ where
     usize: AsPrimitive<LexerTypesT::StorageT>,
     LexerTypesT::StorageT: TryFrom<usize>,
 {
+    /// Parse `src`, the whole text the user wrote, from byte offset `start` (the end of any
+    /// `%grmtools` section) so that every span indexes `src`.
     pub(super) fn new_with_lex_flags(
         src: String,
+        start: usize,
         mut lex_flags: LexFlags,
     ) -> LexBuildResult<LexParser<LexerTypesT>> {
         let LexFlags {
@@ -190,7 +193,7 @@ where
                 Span::new(0, 0),
             )],
         };
-        p.parse()?;
+        p.parse(start)?;
         Ok(p)
     }
 
@@ -202,9 +205,9 @@ where
         }
     }
 
-    fn parse(&mut self) -> LexBuildResult<usize> {
+    fn parse(&mut self, start: usize) -> LexBuildResult<usize> {
         let mut errs = Vec::new();
-        let mut i = match self.parse_declarations(0, &mut errs) {
+        let mut i = match self.parse_declarations(start, &mut errs) {
             Ok(i) => i,
             Err(e) => {
                 errs.push(e);
@@ -1756,6 +1759,25 @@ b "A"
         for src in srcs {
             LRNonStreamingLexerDef::<DefaultLexerTypes<u8>>::from_str(src).unwrap();
         }
+    }
+
+    #[test]
+    fn test_grmtools_section_spans() {
+        // Spans must index the text the user wrote, not the text after the `%grmtools` section.
+        let src = "%grmtools{case_insensitive}\n%x ST\n%%\nab 'ID'\n<ST>c 'C'\n";
+        let ast = LRNonStreamingLexerDef::<DefaultLexerTypes<u8>>::from_str(src).unwrap();
+        for rule in ast.iter_rules() {
+            let span = rule.name_span();
+            assert_eq!(rule.name().unwrap(), &src[span.start()..span.end()]);
+        }
+        let st = ast.iter_start_states().nth(1).unwrap();
+        assert_eq!("ST", &src[st.name_span().start()..st.name_span().end()]);
+        let src = "%grmtools{!octal}\n%%\nab 'ID'\nab 'ID'\n";
+        LRNonStreamingLexerDef::<DefaultLexerTypes<u8>>::from_str(src).expect_error_at_lines_cols(
+            src,
+            LexErrorKind::DuplicateName,
+            &mut [(3, 5), (4, 5)].into_iter(),
+        );
     }
 
     #[test]
